@@ -300,7 +300,9 @@ class _Sub(ast.NodeTransformer):
         return n
 
     def _comp(self, n):
-        # names bound by the comprehension shadow the environment
+        # names bound by the comprehension shadow the environment (and are renamed canonically: they are not observable)
+        from .nf import canon_bound
+        n = canon_bound(n)
         bound = set()
         for g in n.generators:
             for x in ast.walk(g.target):
@@ -1299,9 +1301,10 @@ def result_text(p):
     return k
 
 
-def alpha_rename(fnode):
+def alpha_rename(fnode, keep=(), prefix="v"):
     """Copy of a function (or statement list wrapped in one) whose locals are renamed v1, v2, ... in order of first
-    binding in the text - so that two versions that differ only in the names of their locals read the same."""
+    binding in the text - so that two versions that differ only in the names of their locals read the same.
+    Names in `keep` are left as they are (differential renaming: only the locals the two versions do not share)."""
     fnode = copy.deepcopy(fnode)
     params = set()
     if isinstance(fnode, ast.FunctionDef):
@@ -1369,7 +1372,7 @@ def alpha_rename(fnode):
             visit(c)
     for st in body:
         visit(st)
-    mapping = dict((nm, "v%d" % (i + 1)) for i, nm in enumerate(x for x in order if x not in glob))
+    mapping = dict((nm, "%s%d" % (prefix, i + 1)) for i, nm in enumerate(x for x in order if x not in glob and x not in keep))
 
     class R(ast.NodeTransformer):
         def visit_Name(self, n):
